@@ -575,8 +575,9 @@ Notes:
             dist = _dist
         elif type(_dist) not in dist.__class__.mro():
             dist = Distribution(dist) #XXX: or throw error?
+        from numpy import asarray
         for i in range(self.nPop): #FIXME: accept a list of Distributions
-            self.population[i] = dist(self.nDim)
+            self.population[i] = asarray(dist(self.nDim), dtype=float)
         return
 
     def enable_signal_handler(self):#, callback='*'):
